@@ -365,6 +365,7 @@ func (w *World) AxiomsFor(pkg *types.Package) []*Axiom {
 			continue
 		}
 		out = append(out, cf.Axioms...)
+		out = append(out, cf.Lemmas...) // lemmas are proved separately (lemma.go) and then used like axioms
 	}
 	return out
 }
